@@ -69,14 +69,15 @@ def gen_svc(rng, name=None, type_=None):
         rng.shuffle(addrs)
     return {"type": t, "name": name, "server": rng.choice(HOSTS), "port": rng.choice([80, 81, 1, 65535]), "weight": rng.choice([0, 0, 1, 7]),
             "priority": rng.choice([0, 0, 1, 7]), "text": rng.choice(TEXTS).hex(), "httl": rng.choice(HOST_TTLS), "ottl": rng.choice(OTHER_TTLS),
-            "addrs": [a.hex() for a in addrs]}
+            "addrs": [a.hex() for a in addrs], "ifindex": rng.choice([None, None, None, 3])}
 
 
 def make_info(spec):
     from zeroconf import ServiceInfo
 
     info = ServiceInfo(spec["type"], spec["name"], spec["port"], spec["weight"], spec["priority"], bytes.fromhex(spec["text"]), spec["server"],
-                       host_ttl=spec["httl"], other_ttl=spec["ottl"], addresses=[bytes.fromhex(a) for a in spec["addrs"]])
+                       host_ttl=spec["httl"], other_ttl=spec["ottl"], addresses=[bytes.fromhex(a) for a in spec["addrs"]],
+                       interface_index=spec.get("ifindex"))
     info.set_server_if_missing()  # what async_register_service does before registry.async_add
     return info
 
@@ -201,9 +202,13 @@ def oracle(svcs, qs, known, observed, ettl):
         return bool(m) and all(r[5] < 2 * t for t in m)
 
     cands = []
+    owed = []
     for qn, qt in qs:
         for f in svcs:
-            cands += candidates(f, qn, qt, ettl)
+            c = candidates(f, qn, qt, ettl)
+            cands += c
+            host_has = any(g["server"].lower() == f["server"].lower() and (g["v4"] if qt == T_A else g["v6"] if qt == T_AAAA else []) for g in svcs)
+            owed += [r for r in c if not (r[0] == "n" and host_has)]
     cset = set(cands)
     offered = {ident(a) for a, _ in observed}
     for a, adds in observed:
@@ -223,7 +228,7 @@ def oracle(svcs, qs, known, observed, ettl):
                     break
             if not ok:
                 bad.append(("C03:foreign-additional:%s" % a[0], "additionals are not the SRV/TXT/address/NSEC records of one service owning the answer", (a, adds)))
-    for r in cands:
+    for r in owed:
         if r[0] == "n":
             if nsec_known:
                 continue  # NSEC known answers are outside the completeness claim
@@ -396,7 +401,8 @@ def exec_history(ops, want_lines=True):
                 impl = "%s # %s" % ("none" if qa is None else canon_dict(merged), w.memo())
                 known = [a for m in msgs if not m.is_probe() for a in m.answers()]
                 q = {"svcs": svcs, "qs": [x for m in msgs for x in m.questions], "known": known, "observed": list(keyobj.values()), "none": qa is None,
-                     "buckets": buckets, "conflict": conflict, "dirty": bool(w.dirty), "ettl": w.ettl,
+                     "buckets": buckets, "conflict": conflict, "dirty": bool(w.dirty), "ettl": w.ettl, "merged": merged,
+                     "mixed": len({bool(x.unique) for m in msgs for x in m.questions}) > 1,
                      "in_scope": all(x.class_ == 1 for m in msgs for x in m.questions)}
             else:
                 raise ValueError(k)
@@ -736,6 +742,8 @@ def all_own(svcs, ettl):
 
 
 SIG_D20 = "C03:queued-answer-superseded-by-update"
+SIG_D20B = "C03:queued-enumeration-pointer-after-unregister"
+SIG_D20C = "C03:queued-shared-host-record-after-unregister"
 
 
 def change_oracle(q):
@@ -758,7 +766,17 @@ def change_oracle(q):
                 bad.append((SIG_D20, "a reply computed before async_update_service and still queued was multicast after the update with the "
                             "service's superseded record (D20)", t))
             elif t in old:
-                bad.append(("C03:queued-answer-after-unregister:%s" % t[0], "a reply queued before async_unregister_service went out afterwards with a record of the withdrawn service", t))
+                hosts_left = {f["server"].lower() for f in q["svcs_after"]}
+                shared = any(f["server"].lower() in hosts_left and t in set(own_records(f, q["ettl"])[3] + own_records(f, q["ettl"])[4])
+                             for f in q["changed"].values())
+                if t[0] == "p" and t[1].lower() == ENUM:
+                    bad.append((SIG_D20B, "a type-enumeration answer queued before async_unregister_service went out afterwards although no service of that "
+                                "type is registered any more (the enumeration pointer is not among the records the D5 repair purges)", t))
+                elif t[0] in ("a", "n") and shared:
+                    bad.append((SIG_D20C, "an address/NSEC record of the withdrawn service (its TTL, its instance name), queued before async_unregister_service, "
+                                "went out afterwards: with another service on the host these records are neither purged nor said goodbye to", t))
+                else:
+                    bad.append(("C03:queued-answer-after-unregister:%s" % t[0], "a reply queued before async_unregister_service went out afterwards with a record of the withdrawn service", t))
             else:
                 bad.append(("C03:unsound-answer:after-change:%s" % t[0], "a datagram sent after the change carries a record of no registered service", t))
     return bad
@@ -890,11 +908,11 @@ def assess_wire(res, ops, steps, errors, model_line, seed):
                 if sig in seen_sig:
                     continue
                 seen_sig.add(sig)
-                if sig == SIG_D20:
-                    if res.dist.get("D20-seen", 0) >= 3:
-                        res.count("D20-seen")
+                if sig in (SIG_D20, SIG_D20B, SIG_D20C):
+                    key = "finding-seen:" + sig
+                    res.count(key)
+                    if res.dist[key] > 3:
                         continue
-                    res.count("D20-seen")
                 res.violate(sig, what + " (on the wire)", dict(case, step=i, detail=repr(detail)))
             continue
         union = sorted({nou(rline(a)) for p in q["pkts"] for a in p["answers"]})
@@ -993,6 +1011,7 @@ def gen_query(rng, svcs, past, force_enum=False):
     for f in list(past)[:3]:
         names += [f["name"], f["server"]]
     qu = rng.random() < 0.3
+    mixed = rng.random() < 0.12
     nonin = rng.random() < 0.04
     msgs = []
     for mi in range(2 if rng.random() < 0.12 else 1):
@@ -1010,7 +1029,7 @@ def gen_query(rng, svcs, past, force_enum=False):
                     n = swapc(n, rng)
             else:
                 t = rng.choice(QTYPES)
-            cl = (rng.choice([255, 3]) if nonin and rng.random() < 0.5 else 1) | (0x8000 if qu else 0)
+            cl = (rng.choice([255, 3]) if nonin and rng.random() < 0.5 else 1) | (0x8000 if (rng.random() < 0.5 if mixed else qu) else 0)
             qs.append([n, t, cl])
         if force_enum and mi == 0:
             qs[0] = [rng.choice([ENUM, ENUM.upper()]), T_PTR, 1 | (0x8000 if qu else 0)]
@@ -1170,6 +1189,18 @@ def assess(res, ops, steps, model_line, omodel, olines, label):
                     if s["q"] is not None or s["op"]["op"] == "Q":
                         ma, _, mm = m.partition(" # ")
                         m = "%s # %s" % (canon_model_answers(ma), mm)
+                    if impl != m and s["q"] is not None and s["q"]["mixed"] and impl.partition(" # ")[2] == m.partition(" # ")[2]:
+                        # QU and QM questions in one query: two routing buckets may hold different key objects (TTL, spelling) of one
+                        # identity; compare identity -> additionals
+                        lid = lambda l: ident(rtuple(rec_from_line(l)))  # noqa: E731
+                        mm_ = {}
+                        if ma not in ("none", "empty"):
+                            for e in ma.split(" ; "):
+                                parts = e.split(" , ")
+                                mm_[lid(parts[0])] = frozenset(parts[1:])
+                        if {lid(k): v for k, v in s["q"]["merged"].items()} == mm_ and (s["q"]["none"]) == (ma == "none"):
+                            res.count("mixed-QU-QM-compared-at-identity-level")
+                            continue
                     if impl != m:
                         res.disagree("c03-history", {"ops": ops[: i + 1], "step": i}, impl, m)
                         break
@@ -1191,6 +1222,8 @@ def assess(res, ops, steps, model_line, omodel, olines, label):
         res.count("answers", nans)
         if q["none"]:
             res.count("no-strategy")
+        if q["mixed"]:
+            res.count("queries-mixing-QU-and-QM")
         if q["dirty"]:
             res.count("queries-in-dirty-window(C only)")
         if not q["in_scope"]:
